@@ -251,13 +251,14 @@ pub fn graphql_type_annotation_from_type_annotation(
             GraphQLNonNullTypeAnnotation::Named(GraphQLNamedTypeAnnotation(scalar_entity_name.0))
                 .boxed(),
         ),
-        TypeAnnotationDeclaration::Plural(type_annotation) => GraphQLTypeAnnotation::List(
-            GraphQLListTypeAnnotation(
+        // A plural that is not wrapped in a nullable union is a non-null list
+        TypeAnnotationDeclaration::Plural(type_annotation) => GraphQLTypeAnnotation::NonNull(
+            GraphQLNonNullTypeAnnotation::List(GraphQLListTypeAnnotation(
                 type_annotation
                     .as_ref()
                     .as_ref()
                     .map(graphql_type_annotation_from_type_annotation),
-            )
+            ))
             .boxed(),
         ),
         TypeAnnotationDeclaration::Union(union_type_annotation) => {
